@@ -216,7 +216,7 @@ class Observer(object):
 class AI(object):
     def __init__(self, graph, observer=None, partition=None, max_parts=48, max_depth=12, uninit_locals=True,
                  inline=None, ptr_partition=True, unroll=None, unroll_cap=48, assume_returns=None,
-                 assume_member=None, method_model=None, loop_once=None):
+                 assume_member=None, method_model=None, loop_once=None, assume_loc=None):
         self.G = graph
         self.obs = observer or Observer()
         self.partition = partition or (lambda loc, v: None)
@@ -238,6 +238,7 @@ class AI(object):
         self.assume_member = assume_member or (lambda e: None)
         self.method_model = method_model or {}
         self.loop_once = loop_once or (lambda loop_ast: False)
+        self.assume_loc = assume_loc
 
     # ------------------------------------------------------------------ helpers
     def cfg(self, f):
@@ -418,7 +419,8 @@ class AI(object):
                                     continue      # array objects keep their identity; contents are not tracked
                                 for kk in [kk for kk in st.mem if kk[:len(l)] == l]:
                                     t_ = dtype(u.by_id[l[0]]) if isinstance(l[0], str) and l[0] in u.by_id and len(kk) == 1 else None
-                                    st.mem[kk] = self.top_of(t_) if t_ else TOP
+                                    av_ = self.assume_loc(kk) if self.assume_loc else None
+                                    st.mem[kk] = av_ if av_ is not None else (self.top_of(t_) if t_ else TOP)
             return [(m, st) for (m, _) in n.succs]
         if k == 'loop' and self.unroll(f):
             loc = ('iter', id(n.ast))
@@ -500,8 +502,19 @@ class AI(object):
             return outs
         return [(m, st) for (m, _) in n.succs]
 
+    def _rematerialise(self, s, loc):
+        if self.assume_loc is None:
+            return
+        for kk in [kk for kk in s.mem if kk[:len(loc)] == loc]:
+            if s.mem[kk] is TOP:
+                av_ = self.assume_loc(kk)
+                if av_ is not None:
+                    s.mem[kk] = av_
+
     def _drop_temps(self, s):
-        dead = [k for k in s.mem if k[0] == 'tmp']
+        # temporaries of the activation that just finished a full statement (outer
+        # activations may still be in the middle of an expression)
+        dead = [k for k in s.mem if k[0] == 'tmp' and len(k) > 2 and k[2] >= self.depth]
         for k in dead:
             del s.mem[k]
 
@@ -749,7 +762,7 @@ class AI(object):
         return [(None, st)]
 
     def _temp(self, e, v, s):
-        loc = ('tmp', id(e))
+        loc = ('tmp', id(e), self.depth)
         if isinstance(v, StructV):
             return v.loc
         s.mem[loc] = v
@@ -1393,7 +1406,7 @@ class AI(object):
     def e_InitListExpr(self, e, st, u):
         t = (dtype(e) or qtype(e)).replace('const ', '').strip()
         rec = self._record(u, t)
-        loc = ('tmp', id(e))
+        loc = ('tmp', id(e), self.depth)
         cur = [st]
         if rec is None:
             ks = kids(e)
@@ -1415,6 +1428,12 @@ class AI(object):
         t = (dtype(e) or qtype(e)).replace('const ', '').strip()
         args = call_args(e)
         rec = self._record(u, t)
+        if rec is None and 'cctz::' in t:
+            ctor = self._find_ctor(t, (e.get('ctorType') or {}).get('qualType', ''))
+            if ctor is not None:
+                outs = self.call_function(ctor, args, st, u, e, this_loc=('tmp', id(e), self.depth))
+                if outs is not None:
+                    return [(StructV(('tmp', id(e), self.depth)), s_) for (_, s_) in outs]
         if rec is None:
             # scalar-like / std:: class: value of the single argument when it is a conversion
             cur = [(None, st)]
@@ -1430,7 +1449,7 @@ class AI(object):
             if len(args) == 1 and isinstance(vals[-1] if vals else None, (Int, Ptr)) and ('duration' in t or 'time_point' in t):
                 return [(vals[-1], s) for s in out_states]
             return [(self.top_of(t), s) for s in out_states]
-        loc = ('tmp', id(e))
+        loc = ('tmp', id(e), self.depth)
         # copy / move
         if len(args) == 1 and _same_record(qtype(args[0]), t):
             out = []
@@ -1607,15 +1626,28 @@ class AI(object):
                             s2.havoc(l, sure=True)
                         nxt.append(s2)
             cur = nxt
+        callee_key = None
+        if c and c[0] == 'fn' and c[1].get('_qn'):
+            tg__ = self.G.resolve_decl(c[1])
+            if len(tg__) == 1:
+                callee_key = tg__[0]
         for i, a in enumerate(args):
             nxt = []
             pt = ptypes[i] if i < len(ptypes) else ''
+            pw = self.param_writes(callee_key, i) if callee_key is not None else None
             for s in cur:
                 for (v, s2) in self.eval(a, s, u):
+                    if pw is not None and isinstance(v, Ptr) and v.target is not None:
+                        for fld in pw:
+                            s2.havoc(v.target + (fld,))
+                        self._rematerialise(s2, v.target)
+                        nxt.append(s2)
+                        continue
                     mutable_ptr = isinstance(v, Ptr) and v.target is not None and not re.search(r'\bconst\b[^*]*\*\s*$', (dtype(a) or qtype(a)))
                     if isinstance(v, Ptr) and v.target is not None and not (dtype(a) or qtype(a)).replace(' ', '').startswith('const') and '*' in (dtype(a) or qtype(a)):
                         if not re.match(r'^\s*const\b', (dtype(a) or qtype(a))):
                             s2.havoc(v.target)
+                            self._rematerialise(s2, v.target)
                     if pt.endswith('&') and not pt.startswith('const ') and ' const &' not in pt:
                         for (l, s3) in self.lval(a, s2, u):
                             if l is not None:
@@ -1623,6 +1655,58 @@ class AI(object):
                     nxt.append(s2)
             cur = nxt
         return [(self.top_of(dtype(e)), s) for s in cur]
+
+    def param_writes(self, fkey, idx):
+        """Fields written through pointer/reference parameter idx of a /repo function, or
+        None when the parameter escapes (passed on, stored, or the whole object written)."""
+        if not hasattr(self, '_pw'):
+            self._pw = {}
+        key = (fkey, idx)
+        if key in self._pw:
+            return self._pw[key]
+        from .expr import written_lvalues
+        uu, ff = self.G.defs[fkey]
+        ps = params_of(ff)
+        if idx >= len(ps):
+            return None
+        pid = ps[idx]['id']
+        out = set()
+        ok = True
+        written = []
+        for x in walk(ff):
+            if x.get('kind') in ('BinaryOperator', 'CompoundAssignOperator', 'UnaryOperator', 'CallExpr',
+                                 'CXXMemberCallExpr', 'CXXOperatorCallExpr', 'CXXConstructExpr'):
+                written += [id(lv) for lv in written_lvalues(x)]
+        for x in walk(ff):
+            if x.get('kind') == 'DeclRefExpr' and (x.get('referencedDecl') or {}).get('id') == pid:
+                # climb: p->a.b ... ; classify the use
+                node = x
+                fld = None
+                par = node.get('_p')
+                while par is not None and par.get('kind') in ('ImplicitCastExpr', 'ParenExpr'):
+                    node, par = par, par.get('_p')
+                if par is not None and par.get('kind') == 'MemberExpr':
+                    fld = par.get('name')
+                    top = par
+                    while top.get('_p') is not None and top['_p'].get('kind') in ('MemberExpr', 'ImplicitCastExpr', 'ParenExpr'):
+                        top = top['_p']
+                    chain = [y for y in walk(top)]
+                    if any(id(y) in written for y in [top] + [a for a in chain if a.get('kind') == 'MemberExpr']):
+                        out.add(fld)
+                    elif top.get('_p') is not None and top['_p'].get('kind') == 'UnaryOperator' and top['_p'].get('opcode') == '&':
+                        out.add(fld)        # address of a field taken: treat as written
+                    continue
+                if par is not None and par.get('kind') == 'UnaryOperator' and par.get('opcode') == '*':
+                    ok = False          # *p = ... or *p passed on: whole object
+                    continue
+                if par is not None and par.get('kind') in ('CallExpr', 'CXXMemberCallExpr', 'CXXConstructExpr', 'CXXOperatorCallExpr'):
+                    ok = False
+                    continue
+                if par is not None and par.get('kind') == 'BinaryOperator' and par.get('opcode') in ('==', '!='):
+                    continue
+                ok = False
+        self._pw[key] = out if ok else None
+        return self._pw[key]
 
     def this_writes(self, fkey, _seen=None):
         """Names of the data members of *this that fkey may write, transitively through
@@ -1760,7 +1844,7 @@ class AI(object):
                 if s2.rel:
                     s2.rel = {k_: v_ for k_, v_ in s2.rel.items() if k_[0][0] not in ids and k_[1][0] not in ids}
                 if isinstance(v, StructV):
-                    tmp = ('tmp', id(site))
+                    tmp = ('tmp', id(site), self.depth)
                     s2.copy_struct(v.loc, tmp)
                     v = StructV(tmp)
                 if v is None:
